@@ -1275,16 +1275,16 @@ def rotate(phi, theta, psi, ra, dec):
     sb = sin(b)
     cb = cos(b)
     cbsa = cb * sin(a)
+    cbca = cb * cos(a)
 
     b = -sintheta * cbsa + costheta * sb
+    ynew = costheta * cbsa + sintheta * sb
 
-    (w,) = np.where(b > 1.0)
-    if w.size > 0:
-        b[w] = 1.0
+    # latitude from the full rotated vector: arcsin(b) is nan when
+    # rounding takes b below -1 and imprecise next to the poles
+    dec_out = arctan2(b, np.hypot(cbca, ynew))
 
-    dec_out = arcsin(b)
-
-    a = arctan2(costheta * cbsa + sintheta * sb, cb * cos(a))
+    a = arctan2(ynew, cbca)
     ra_out = (a + psi + fourpi) % twopi
 
     rad2deg(ra_out, out=ra_out)
